@@ -337,6 +337,7 @@ pub fn framing(rng: &mut Rng) -> Case {
 pub fn whole_reads(sc: &Scenario) -> Scenario {
     let mut out = sc.clone();
     out.config.scribble = false;
+    out.config.coalesce = false;
     for s in out.steps.iter_mut() {
         match s {
             Step::Broker { chunks, hold, .. } => {
@@ -587,6 +588,19 @@ pub fn systematic_framing(thorough: bool) -> Vec<Case> {
             cases.push(sys_case(&run_prefix, &long, sizes, pending, &run_tail, &config));
         }
     }
+    // ---- (3b) many small packets per read: 15..130 messages (counts next to powers of two)
+    // in one read, in 512-byte reads, and in two reads cut inside a packet
+    {
+        let counts: &[usize] = if thorough { &[15, 16, 17, 31, 32, 33, 34, 63, 64, 65, 100, 130] } else { &[16, 32, 33, 34, 65] };
+        for &n in counts {
+            let many: Vec<Vec<u8>> = (0..n).map(|k| msg(format!("s{k}").into_bytes(), if k % 5 == 4 { 1 } else { 0 }, 100 + k as u16)).collect();
+            let total: usize = many.iter().map(|p| p.len()).sum();
+            cases.push(sys_case(&run_prefix, &many, vec![total], false, &run_tail, &config));
+            cases.push(sys_case(&run_prefix, &many, vec![512; total / 512 + 1], false, &run_tail, &config));
+            cases.push(sys_case(&run_prefix, &many, vec![total / 2 + 3], true, &run_tail, &config));
+            cases.push(sys_case(&run_prefix, &many, vec![total - 1], true, &run_tail, &config));
+        }
+    }
     // ---- (4) remaining lengths of 3 (and, thorough, 4) bytes
     let big = msg(vec![b'z'; 20_000], 0, 0);
     let big_stream = vec![pingresp.clone(), big.clone(), pingresp.clone()];
@@ -704,6 +718,10 @@ pub fn maxpacket(rng: &mut Rng) -> Case {
         _ => Some(rng.range(12, 90) as u32),
     };
     cfg.max_packet = m;
+    // the client's OWN Maximum Packet Size (its limit for the server), smaller than what the
+    // server allows: requests around that size must all be written
+    let own: Option<u32> = if m.map(|m| m > 400).unwrap_or(true) && rng.chance(1, 2) { Some(rng.range(100, 250) as u32) } else { None };
+    cfg.own_max_packet = own;
     let r = cfg.receive_max;
     let n_ops = rng.urange(1, 9);
     let mut g = Gen::new(cfg, rng);
@@ -751,7 +769,10 @@ pub fn maxpacket(rng: &mut Rng) -> Case {
         let id = g.next_op_id();
         let kind = g.rng.weighted(&[2, 3, 2, 2, 2, 1]);
         let mut spec = g.new_op_spec(kind, id);
-        if let Some(m) = m {
+        if let (Some(c), true) = (own, g.rng.coin()) {
+            let target = (c as i64 + *g.rng.pick(&[-1i64, 0, 1, 1, 9, 40])) as usize;
+            pad_to(&mut spec, target, g.rng);
+        } else if let Some(m) = m {
             if m >= 4 && m < 100_000 {
                 let target = (m as i64 + *g.rng.pick(&[-1i64, 0, 0, 1, 1, -7, 9])) as usize;
                 pad_to(&mut spec, target, g.rng);
@@ -838,8 +859,12 @@ pub fn maxpacket(rng: &mut Rng) -> Case {
 pub fn without_max_packet(sc: &Scenario) -> Scenario {
     let mut out = sc.clone();
     for s in out.steps.iter_mut() {
-        if let Step::Broker { pkt: BrokerPkt::Connack { props, .. }, .. } = s {
-            props.0.retain(|(id, _)| *id != pid::MAXIMUM_PACKET_SIZE);
+        match s {
+            Step::Broker { pkt: BrokerPkt::Connack { props, .. }, .. } => props.0.retain(|(id, _)| *id != pid::MAXIMUM_PACKET_SIZE),
+            // the twin is the run without any size limit: nobody's, so that the encoded length
+            // of every request can be read off its wire
+            Step::Start { connect, .. } | Step::Reconnect { connect, .. } => connect.maximum_packet_size = None,
+            _ => {}
         }
     }
     out
@@ -905,8 +930,9 @@ fn resume_cfg(rng: &mut Rng) -> (GenCfg, u32) {
     // callers may abandon their futures at any point (the exchange goes on without them)
     cfg.cancels = rng.chance(1, 3);
     // effective session expiry: CONNECT value, possibly overridden by CONNACK
-    let connect_e = *rng.pick(&[None, Some(0u32), Some(30), Some(3600), Some(100_000), Some(u32::MAX)]);
-    let connack_e = if rng.chance(1, 3) { Some(*rng.pick(&[0u32, 60, 7200, u32::MAX])) } else { None };
+    // also intervals beyond 2^24 s (where a detour through f32 loses whole seconds) and 2^31
+    let connect_e = *rng.pick(&[None, Some(0u32), Some(30), Some(3600), Some(100_000), Some(u32::MAX), Some(16_777_217), Some(31_536_000), Some(2_147_483_649), Some(u32::MAX - 1)]);
+    let connack_e = if rng.chance(1, 3) { Some(*rng.pick(&[0u32, 60, 7200, u32::MAX, 31_536_001, 1_000_000_007])) } else { None };
     cfg.session_expiry = connect_e;
     cfg.connack_session_expiry = connack_e;
     let effective = connack_e.or(connect_e).unwrap_or(0);
@@ -918,11 +944,11 @@ fn elapsed_for(rng: &mut Rng, effective: u32) -> u64 {
         0 | u32::MAX => *rng.pick(&[0u64, 1, 100, 10_000_000_000]),
         e => {
             let e = e as u64;
-            // never within 2 s of the expiry instant (equality is not specified)
+            // right up to the expiry instant on either side (only equality is unspecified)
             if rng.coin() {
-                *rng.pick(&[0u64, 1, e / 2, e.saturating_sub(3)])
+                *rng.pick(&[0u64, 1, e / 2, e.saturating_sub(3), e.saturating_sub(1), e.saturating_sub(2), e.saturating_sub(65)])
             } else {
-                *rng.pick(&[e + 3, e * 2, e + 86_400, 5_000_000_000])
+                *rng.pick(&[e + 3, e * 2, e + 86_400, 5_000_000_000, e + 1, e + 2, e + 65])
             }
         }
     }
@@ -1555,7 +1581,10 @@ pub fn qos2_resume(rng: &mut Rng) -> Case {
     cfg.inbound_multi_ids = false;
     cfg.drop_streams = false;
     cfg.writer_tweaks = false;
-    cfg.session_expiry = Some(u32::MAX);
+    // one run in three: the session expires while offline; identifiers received and not
+    // released in it mean nothing to the new session
+    let expired = rng.chance(1, 3);
+    cfg.session_expiry = Some(if expired { *rng.pick(&[0u32, 30]) } else { u32::MAX });
     cfg.w_ops = [0, 1, 0, 3, 0, 0];
     cfg.steps = rng.urange(6, 30);
     let mut g = Gen::new(cfg, rng);
@@ -1588,13 +1617,38 @@ pub fn qos2_resume(rng: &mut Rng) -> Case {
     }
     g.settle();
     let connect = g.connect_spec();
-    let elapsed = g.rng.range(0, 1000);
+    let elapsed = if expired { 1000 } else { g.rng.range(0, 1000) };
     g.push(Step::Reconnect { elapsed, connect, auths: vec![] });
     g.settle();
     let props = g.connack_props();
-    g.broker(BrokerPkt::Connack { session_present: true, reason: 0, props });
+    g.broker(BrokerPkt::Connack { session_present: !expired, reason: 0, props });
     g.push(Step::Deliver { n: usize::MAX });
     g.settle();
+    if expired {
+        // the application subscribes again; the broker, which has forgotten the old session,
+        // uses the identifiers it had not released there for new messages
+        for (op, _) in g.ack_candidates() {
+            g.mark_final(op);
+        }
+        let stale = g.unreleased_inbound();
+        let sub = g.next_op_id();
+        let spec = g.new_op_spec(3, sub);
+        g.push(Step::Op { id: sub, handle: 0, spec });
+        g.settle();
+        if g.ack_candidates().contains(&(sub, AckKind::Suback)) {
+            g.send_ack(sub, AckKind::Suback);
+            g.push(Step::Deliver { n: usize::MAX });
+            g.settle();
+            g.open_stream(sub);
+            for j in stale {
+                g.inbound_qos2_reusing(sub, j);
+                g.push(Step::Deliver { n: usize::MAX });
+                g.settle();
+            }
+        }
+        g.drain();
+        return finish_case(g, "inbound/qos2-across-expiry");
+    }
     g.cfg.steps = g.rng.urange(3, 25);
     for _ in 0..g.cfg.steps {
         g.action();
